@@ -293,6 +293,12 @@ def shard_copies(arg):
         check_containers(rec, items, "container")
         rec.case("copy-container" + ("-with-sibling-country" if sib else ""), ("container", t), {"items": [list(i) for i in items[:4]]} if k == 0 else None)
         check_copies(rec, ("bban", "x1", "XX"), False, "direct")
+        if k == 0:
+            # degenerate objects: empty / one-character texts, empty or unknown country
+            for d in (("iban", ""), ("iban", "D"), ("iban", "DE"), ("bban_of_iban", ""), ("bban_of_iban", "D"), ("bban", "", ""),
+                      ("bban", "X", ""), ("bban", "", cc), ("bic", ""), ("bic", "A")):
+                check_copies(rec, d, False, "degenerate")
+                rec.case("copy-degenerate", d + (cc,), {"obj": list(d)} if cc == "DE" else None)
     return rec
 
 
@@ -329,5 +335,5 @@ def run(ctx):
         check_cross_process(ctx.rec, descs, hs)
         ctx.rec.evals += len(descs)
     ctx.rec.sample("cross-process-object", {"objects": len(descs), "first": list(descs[0])})
-    ctx.require_classes("cross-process-object", "copy-container", "copy-container-with-sibling-country", "pair-equal-cross-class", "pair-different", "sort-list", "copy-iban-valid", "copy-iban-unvalidated",
+    ctx.require_classes("copy-degenerate", "cross-process-object", "copy-container", "copy-container-with-sibling-country", "pair-equal-cross-class", "pair-different", "sort-list", "copy-iban-valid", "copy-iban-unvalidated",
                         "copy-bban_of_iban-valid", "copy-bban-direct", "copy-bic-valid", "copy-bic-unvalidated")
